@@ -11,7 +11,7 @@ def KidsPost (all : List ColBox) (i0 : Nat) (sub0 : Option Resume) : KidsOutcome
   | .finished s' => FullFrom s'.newChildren all i0 sub0
   | .aborted _ _ => True
   | .raised _ => True
-  | .stopped ρ s' => ∃ m, ρ.isSome = true ∧ skipIdxOf ρ = i0 + m ∧
+  | .stopped ρ s' => ∃ m, ρ.isSome = true ∧ skipIdxOf ρ = i0 + m ∧ m < all.length ∧
       fragLinesList s'.newChildren ++ linesFromKids all m (subSkipOf ρ) = linesFromKids all 0 sub0 ∧
       posKids all 0 sub0 < posKids all m (subSkipOf ρ)
 
@@ -38,12 +38,13 @@ theorem posKids_append_zero (B : List ColBox) (child : ColBox) (rest : List ColB
     omega
 
 theorem stop_before_spec (B R : List ColBox) (i0 : Nat) (sub0 : Option Resume) (s' : KidsLoop)
-    (hinv : FullFrom s'.newChildren B i0 sub0) (hne : s'.newChildren ≠ []) :
+    (hinv : FullFrom s'.newChildren B i0 sub0) (hne : s'.newChildren ≠ []) (hR : R ≠ []) :
     KidsPost (B ++ R) i0 sub0 (.stopped (some (.node (i0 + B.length) none)) s') := by
   have hlen := fullFrom_length _ _ _ _ hinv
   have hB : 0 < B.length := by
     rw [← hlen]; exact List.length_pos_iff.mpr hne
-  refine ⟨B.length, rfl, rfl, ?_, ?_⟩
+  have hRl : 0 < R.length := List.length_pos_iff.mpr hR
+  refine ⟨B.length, rfl, rfl, by simp; omega, ?_, ?_⟩
   · rw [fullFrom_lines _ _ _ _ hinv, linesFromKids_append_lt _ _ _ _ hB]
     have := linesFromKids_append_len B R 0 none
     simp only [Nat.add_zero] at this
@@ -83,7 +84,7 @@ theorem conclude_spec (c : CCtx) (index : Nat) (pie : Bool) (pb : Brk) (child : 
         obtain ⟨m, sub', rfl, hm, hlines, hpos⟩ :=
           findEarlierList_spec c.inColumn _ _ _ _ hgB hinv kept r' hfound
         have h0 : 0 < B.length := by omega
-        refine ⟨m, rfl, rfl, ?_, ?_⟩
+        refine ⟨m, rfl, rfl, by simp; omega, ?_, ?_⟩
         · simp only [subSkipOf_node]
           rw [linesFromKids_append_lt _ _ _ _ hm, linesFromKids_append_lt _ _ _ _ h0, ← List.append_assoc, hlines]
         · simp only [subSkipOf_node]
@@ -98,7 +99,7 @@ theorem conclude_spec (c : CCtx) (index : Nat) (pie : Bool) (pb : Brk) (child : 
             simp only [Prod.mk.injEq, Option.some.injEq] at h
             obtain ⟨rfl, rfl⟩ := h
             rw [hidx]
-            apply stop_before_spec _ _ _ _ _ hinv
+            apply stop_before_spec _ _ _ _ _ hinv _ (by simp)
             intro he; rw [he] at hne; simp at hne
           · simp only [Prod.mk.injEq, Option.some.injEq] at h
             obtain ⟨rfl, rfl⟩ := h
@@ -121,7 +122,7 @@ theorem conclude_spec (c : CCtx) (index : Nat) (pie : Bool) (pb : Brk) (child : 
       · intro out s3 h
         simp only [concludeKid, Prod.mk.injEq, Option.some.injEq] at h
         obtain ⟨rfl, rfl⟩ := h
-        refine ⟨B.length, rfl, by rw [hidx]; rfl, ?_, ?_⟩
+        refine ⟨B.length, rfl, by rw [hidx]; rfl, by simp, ?_, ?_⟩
         · simp only [subSkipOf_node]
           rw [fragLinesList_append, fullFrom_lines _ _ _ _ hinv, linesFromKids_append_zero]
           have := linesFromKids_append_len B (child :: rest) 0 (some r')
@@ -204,7 +205,7 @@ theorem finishBlock_post (c : CCtx) (st : PStyle) (p : Prep) (pie : Bool) (id id
     simp only [finishBlock] at hf ⊢
     obtain ⟨⟨g, rfl⟩, hr⟩ := finishContainer_frag _ _ _ _ _ _ _ _ _ _ _ _ _ _ _ _ _ _ hf
     rw [hr, forgetIfFixed_none _ _ _ _ hh]
-    obtain ⟨m, hsome, hidx, hlines, hpos⟩ := hout
+    obtain ⟨m, hsome, hidx, _, hlines, hpos⟩ := hout
     cases resume with
     | none => simp at hsome
     | some ρ =>
@@ -236,17 +237,41 @@ def colLines (kids : List ColBox) (a : Nat) (σ : Option Resume) : List (Nat × 
 def colPos (kids : List ColBox) (a : Nat) (σ : Option Resume) : Nat :=
   posKids kids (a + skipIdxOf σ) (subSkipOf σ)
 
-/-- Post-condition of the layout of one column box. -/
+/-- Post-condition of the layout of one column box (`kids` = the children up to the end of the group). -/
 def ColPost (kids : List ColBox) (a : Nat) (σ : Option Resume) (r : LayoutResult) : Prop :=
+  (r.frag = none → r.resume = none) ∧
   ∀ f, r.frag = some f → f.isColumn = true ∧ match r.resume with
     | none => fragLines f = colLines kids a σ
     | some ρ => fragLines f ++ colLines kids a (some ρ) = colLines kids a σ ∧
-        colPos kids a σ < colPos kids a (some ρ)
+        colPos kids a σ < colPos kids a (some ρ) ∧ a + skipIdxOf (some ρ) < kids.length
+
+theorem finishContainer_none (isCol : Bool) (c : CCtx) (st : PStyle) (b : BoxSt) (pie : Bool) (bs : Rat)
+    (cwc dbd : Bool) (resume : Option Resume) (posY : Rat) (adjL cur : List Rat) (curIsL : Bool)
+    (np : NextPage) (hasKids : Bool) (pageEnd : String) (mk : Geo → CFrag)
+    (h : (finishContainer isCol c st b pie bs cwc dbd resume posY adjL cur curIsL np hasKids pageEnd mk).frag
+      = none) :
+    (finishContainer isCol c st b pie bs cwc dbd resume posY adjL cur curIsL np hasKids pageEnd mk).resume
+      = none := by
+  unfold finishContainer at h ⊢
+  split
+  · simp [noneResult]
+  · rename_i hc; rw [if_neg hc] at h; simp at h
 
 theorem finishColumn_post (c : CCtx) (st : PStyle) (p : Prep) (pie : Bool) (id : Nat) (x : Rat) (out : KidsOutcome)
     (kids : List ColBox) (a : Nat) (σ : Option Resume) (hh : st.height = none)
     (hout : KidsPost (kids.drop (a + skipIdxOf σ)) (skipIdxOf σ) (subSkipOf σ) out) :
     ColPost kids a σ (finishBlock true c st p pie out (fun g ks => .column id st x g ks)) := by
+  constructor
+  · intro hn
+    cases out with
+    | raised e => simp [finishBlock, raisedResult]
+    | aborted page s => simp [finishBlock, noneResult]
+    | stopped resume s =>
+      simp only [finishBlock] at hn ⊢
+      exact finishContainer_none _ _ _ _ _ _ _ _ _ _ _ _ _ _ _ _ _ hn
+    | finished s =>
+      simp only [finishBlock] at hn ⊢
+      exact finishContainer_none _ _ _ _ _ _ _ _ _ _ _ _ _ _ _ _ _ hn
   intro f hf
   cases out with
   | raised e => simp [finishBlock, raisedResult] at hf
@@ -256,12 +281,12 @@ theorem finishColumn_post (c : CCtx) (st : PStyle) (p : Prep) (pie : Bool) (id :
     obtain ⟨⟨g, rfl⟩, hr⟩ := finishContainer_frag _ _ _ _ _ _ _ _ _ _ _ _ _ _ _ _ _ _ hf
     rw [hr, forgetIfFixed_none _ _ _ _ hh]
     refine ⟨rfl, ?_⟩
-    obtain ⟨m, hsome, hidx, hlines, hpos⟩ := hout
+    obtain ⟨m, hsome, hidx, hmlen, hlines, hpos⟩ := hout
     cases resume with
     | none => simp at hsome
     | some ρ =>
       simp only [colLines, colPos]
-      constructor
+      refine ⟨?_, ?_, ?_⟩
       · simp only [fragLines]
         rw [hidx, ← Nat.add_assoc, linesFromKids_drop kids (a + skipIdxOf σ) m, hlines]
         have := linesFromKids_drop kids (a + skipIdxOf σ) 0 (subSkipOf σ)
@@ -270,6 +295,9 @@ theorem finishColumn_post (c : CCtx) (st : PStyle) (p : Prep) (pie : Bool) (id :
         have := posKids_drop kids (a + skipIdxOf σ) 0 (subSkipOf σ)
         simp only [Nat.add_zero] at this
         rw [this]
+        omega
+      · rw [hidx]
+        simp only [List.length_drop] at hmlen
         omega
   | finished s =>
     simp only [finishBlock] at hf ⊢
@@ -298,91 +326,211 @@ theorem fragLinesList_map_setColHeight (h : Rat) (l : List CFrag) :
   | nil => rfl
   | cons f fs ih => simp [fragLinesList, ih]
 
-theorem allColumns_map_setColHeight (h : Rat) (l : List CFrag) (hl : allColumns l) :
-    allColumns (l.map (setColHeight h)) := by
-  induction l with
-  | nil => trivial
-  | cons f fs ih =>
-    simp only [allColumns] at hl
-    simp only [List.map_cons, allColumns, isColumn_setColHeight]
-    exact ⟨hl.1, ih hl.2⟩
-
 theorem addTrailing_spec (diff : Rat) (l : List CFrag) :
-    fragLinesList (addTrailing diff l).1 = fragLinesList l ∧ (allColumns l → allColumns (addTrailing diff l).1) ∧
-    ((addTrailing diff l).1 = [] ↔ l = []) := by
+    fragLinesList (addTrailing diff l).1 = fragLinesList l ∧ ((addTrailing diff l).1 = [] ↔ l = []) := by
   induction l with
   | nil => simp [addTrailing, fragLinesList]
   | cons f fs ih =>
     simp only [addTrailing]
     split
-    · simp only [fragLinesList, fragLines_setColHeight, ih.1, allColumns, isColumn_setColHeight]
-      refine ⟨trivial, ?_, by simp⟩
-      intro h; exact ⟨h.1, ih.2.1 h.2⟩
-    · simp only [fragLinesList, ih.1, allColumns]
-      refine ⟨trivial, ?_, by simp⟩
-      intro h; exact ⟨h.1, ih.2.1 h.2⟩
+    · simp only [fragLinesList, fragLines_setColHeight, ih.1]
+      exact ⟨trivial, by simp⟩
+    · simp only [fragLinesList, ih.1]
+      exact ⟨trivial, by simp⟩
 
-theorem allColumns_append (a b : List CFrag) (ha : allColumns a) (hb : allColumns b) : allColumns (a ++ b) := by
-  induction a with
-  | nil => simpa using hb
-  | cons f fs ih =>
-    simp only [allColumns] at ha
-    simp only [List.cons_append, allColumns]
-    exact ⟨ha.1, ih ha.2⟩
+/-! ### list arithmetic for groups and spanning children -/
 
-/-! ### without spanning children there is one group -/
+theorem linesFromKids_ge : (K : List ColBox) → (m : Nat) → (s : Option Resume) → K.length ≤ m →
+    linesFromKids K m s = []
+  | [], _, _, _ => by simp [linesFromKids]
+  | x :: xs, 0, _, h => by simp at h
+  | x :: xs, m + 1, s, h => by
+    simp only [linesFromKids]
+    exact linesFromKids_ge xs m s (by simpa using h)
 
-theorem normFlags_noSpan : (n : Nat) → (flags : List Bool) → NoSpanFlags flags →
-    normFlags flags n = List.replicate n false
-  | 0, _, _ => by simp [normFlags]
-  | n + 1, flags, h => by
-    have htail : NoSpanFlags flags.tail := by
-      intro f hf; exact h f (List.mem_of_mem_tail hf)
-    simp only [normFlags, normFlags_noSpan n flags.tail htail, List.replicate_succ, List.cons.injEq, and_true]
-    cases flags with
-    | nil => rfl
-    | cons f fs => exact h f (by simp)
+theorem linesFromKids_take (K : List ColBox) (e m : Nat) (s : Option Resume) (hm : m < e) (he : e ≤ K.length) :
+    linesFromKids K m s = linesFromKids (K.take e) m s ++ linesFromKids K e none := by
+  have h1 := linesFromKids_append_lt (K.take e) (K.drop e) m s (by simp; omega)
+  rw [List.take_append_drop] at h1
+  rw [h1]
+  have h2 := linesFromKids_drop K e 0 none
+  simp only [Nat.add_zero] at h2
+  rw [h2]
 
-theorem noSpanFlags_replicate (n : Nat) : NoSpanFlags (List.replicate n false) := by
-  intro f hf; exact (List.mem_replicate.mp hf).2
+theorem posKids_take (K : List ColBox) (e m : Nat) (s : Option Resume) (hm : m < e) (he : e ≤ K.length) :
+    posKids K m s = posKids (K.take e) m s := by
+  have h1 := posKids_append_lt (K.take e) (K.drop e) m s (by simp; omega)
+  rw [List.take_append_drop] at h1
+  exact h1
 
-theorem colItemsGo_false : (m i a len : Nat) →
-    colItemsGo (List.replicate m false) i (some (a, len)) = [.group a (len + m)]
-  | 0, _, _, _ => by simp [colItemsGo]
-  | m + 1, i, a, len => by
-    simp only [List.replicate_succ, colItemsGo]
-    rw [colItemsGo_false m (i + 1) a (len + 1)]
-    congr 2; omega
+theorem posKids_at_take (K : List ColBox) (e : Nat) (s : Option Resume) :
+    sizeKids (K.take e) ≤ posKids K e s := by
+  have := posKids_drop K e 0 s
+  simp only [Nat.add_zero] at this
+  omega
 
-theorem colItems_noSpan (flags : List Bool) (h : NoSpanFlags flags) (n k : Nat) :
-    colItems flags n k = if n ≤ k then [] else [.group k (n - k)] := by
+theorem linesFromKids_get : (K : List ColBox) → (i : Nat) → (b : ColBox) → (sub : Option Resume) → K[i]? = some b →
+    linesFromKids K i sub = linesFrom b sub ++ linesFromKids K (i + 1) none
+  | [], i, b, sub, h => by simp at h
+  | x :: xs, 0, b, sub, h => by
+    simp only [List.getElem?_cons_zero, Option.some.injEq] at h
+    subst h
+    simp [linesFromKids]
+  | x :: xs, i + 1, b, sub, h => by
+    simp only [List.getElem?_cons_succ] at h
+    simp only [linesFromKids]
+    exact linesFromKids_get xs i b sub h
+
+theorem posKids_get : (K : List ColBox) → (i : Nat) → (b : ColBox) → (sub : Option Resume) → K[i]? = some b →
+    posKids K i sub = sizeKids (K.take i) + pos b sub ∧
+    ∀ s', sizeKids (K.take i) + sizeBox b ≤ posKids K (i + 1) s'
+  | [], i, b, sub, h => by simp at h
+  | x :: xs, 0, b, sub, h => by
+    simp only [List.getElem?_cons_zero, Option.some.injEq] at h
+    subst h
+    refine ⟨by simp [posKids, sizeKids], ?_⟩
+    intro s'
+    simp only [List.take_zero, sizeKids, posKids]
+    omega
+  | x :: xs, i + 1, b, sub, h => by
+    simp only [List.getElem?_cons_succ] at h
+    obtain ⟨h1, h2⟩ := posKids_get xs i b sub h
+    refine ⟨by simp only [posKids, List.take_succ_cons, sizeKids]; omega, ?_⟩
+    intro s'
+    have := h2 s'
+    simp only [posKids, List.take_succ_cons, sizeKids]
+    omega
+
+theorem goodList_get : (K : List ColBox) → (i : Nat) → (b : ColBox) → GoodList K → K[i]? = some b → Good b
+  | [], i, b, _, h => by simp at h
+  | x :: xs, 0, b, hg, h => by
+    simp only [List.getElem?_cons_zero, Option.some.injEq] at h
+    subst h
+    simp only [GoodList] at hg
+    exact hg.1
+  | x :: xs, i + 1, b, hg, h => by
+    simp only [List.getElem?_cons_succ] at h
+    simp only [GoodList] at hg
+    exact goodList_get xs i b hg.2 h
+
+theorem goodList_take (K : List ColBox) (e : Nat) (h : GoodList K) : GoodList (K.take e) := by
+  induction K generalizing e with
+  | nil => simpa using h
+  | cons b bs ih =>
+    cases e with
+    | zero => simp [GoodList]
+    | succ e =>
+      simp only [GoodList] at h
+      simp only [List.take_succ_cons, GoodList]
+      exact ⟨h.1, ih e h.2⟩
+
+/-! ### the items of `columns_and_blocks` -/
+
+theorem normFlags_length : (n : Nat) → (flags : List Bool) → (normFlags flags n).length = n
+  | 0, _ => by simp [normFlags]
+  | n + 1, flags => by simp [normFlags, normFlags_length n flags.tail]
+
+/-- `its` describes the children from position `m` on: spanning children one by one, the others in maximal
+groups. `F` = one flag per child, `n` = number of children. -/
+def ItemsOk (F : List Bool) (n : Nat) : Nat → List ColItem → Prop
+  | m, [] => n ≤ m
+  | m, .span i :: rest => i = m ∧ F[m]? = some true ∧ ItemsOk F n (m + 1) rest
+  | m, .group a len :: rest => a = m ∧ 0 < len ∧ m + len ≤ n ∧ (∀ t, m ≤ t → t < m + len → F[t]? ≠ some true) ∧
+      (m + len < n → F[m + len]? = some true) ∧ ItemsOk F n (m + len) rest
+
+theorem colItemsGo_ok (F : List Bool) (n : Nat) (hF : F.length = n) : (fs : List Bool) → ∀ (i : Nat)
+    (pending : Option (Nat × Nat)), fs = F.drop i → i ≤ n →
+    match pending with
+    | none => ItemsOk F n i (colItemsGo fs i none)
+    | some (a, len) => a + len = i → 0 < len → (∀ t, a ≤ t → t < i → F[t]? ≠ some true) →
+        ItemsOk F n a (colItemsGo fs i (some (a, len)))
+  | [], i, pending, hfs, hi => by
+    have hin : n ≤ i := by
+      have := congrArg List.length hfs
+      simp only [List.length_nil, List.length_drop] at this
+      omega
+    cases pending with
+    | none => simp only [colItemsGo, ItemsOk]; exact hin
+    | some p =>
+      obtain ⟨a, len⟩ := p
+      intro h1 h2 h3
+      simp only [colItemsGo, ItemsOk]
+      refine ⟨trivial, h2, by omega, ?_, by omega, by omega⟩
+      intro t ht1 ht2
+      exact h3 t ht1 (by omega)
+  | f :: fs', i, pending, hfs, hi => by
+    have hlt : i < n := by
+      have := congrArg List.length hfs
+      simp only [List.length_cons, List.length_drop] at this
+      omega
+    have hfi : F[i]? = some f := by
+      have : (F.drop i)[0]? = some f := by rw [← hfs]; rfl
+      simpa using this
+    have hfs' : fs' = F.drop (i + 1) := by
+      have : (f :: fs').tail = (F.drop i).tail := by rw [hfs]
+      simpa [List.tail_drop] using this
+    have ih := colItemsGo_ok F n hF fs' (i + 1)
+    cases f with
+    | true =>
+      cases pending with
+      | none =>
+        simp only [colItemsGo, ItemsOk]
+        exact ⟨trivial, hfi, ih none hfs' (by omega)⟩
+      | some p =>
+        obtain ⟨a, len⟩ := p
+        intro h1 h2 h3
+        simp only [colItemsGo, ItemsOk]
+        subst h1
+        exact ⟨trivial, h2, by omega, h3, fun _ => hfi, rfl, hfi, ih none hfs' (by omega)⟩
+    | false =>
+      cases pending with
+      | none =>
+        simp only [colItemsGo]
+        apply ih (some (i, 1)) hfs' (by omega) rfl (by omega)
+        intro t ht1 ht2
+        have : t = i := by omega
+        subst this
+        rw [hfi]; simp
+      | some p =>
+        obtain ⟨a, len⟩ := p
+        intro h1 h2 h3
+        simp only [colItemsGo]
+        apply ih (some (a, len + 1)) hfs' (by omega) (by omega) (by omega)
+        intro t ht1 ht2
+        by_cases hti : t = i
+        · subst hti; rw [hfi]; simp
+        · exact h3 t ht1 (by omega)
+
+theorem colItems_ok (flags : List Bool) (n skip : Nat) :
+    ItemsOk (normFlags flags n) n skip (colItems flags n skip) := by
   unfold colItems
-  rw [normFlags_noSpan n flags h, List.drop_replicate]
-  by_cases hk : n ≤ k
-  · have : n - k = 0 := by omega
-    simp [hk, this, colItemsGo]
-  · simp only [hk, if_false]
-    obtain ⟨m, hm⟩ : ∃ m, n - k = m + 1 := ⟨n - k - 1, by omega⟩
-    rw [hm, List.replicate_succ, colItemsGo, colItemsGo_false]
-    congr 2; omega
+  by_cases h : skip ≤ n
+  · exact colItemsGo_ok (normFlags flags n) n (normFlags_length n flags) _ skip none rfl h
+  · have : (normFlags flags n).drop skip = [] := by
+      apply List.drop_eq_nil_of_le
+      rw [normFlags_length]; omega
+    rw [this]
+    simp only [colItemsGo, ItemsOk]
+    omega
 
 /-! ### the chain of columns of one group -/
 
-/-- What the loop producing the real columns returns. -/
+/-- What the loop producing the real columns returns (`kids` = the children up to the end of the group). -/
 def RealPost (kids : List ColBox) (a : Nat) (σ0 : Option Resume) (bp0 : Bool) (r : RealOut) : Prop :=
   r.err = none →
-  (r.columns = [] ∧ r.breakPage = true) ∨
-  (r.breakPage = bp0 ∧ r.columns ≠ [] ∧ allColumns r.columns ∧
+  (r.columns = [] ∧ r.breakPage = true ∧ r.colSkip = none) ∨
+  (r.breakPage = bp0 ∧ r.columns ≠ [] ∧
     match r.colSkip with
     | none => fragLinesList r.columns = colLines kids a σ0
     | some ρ => fragLinesList r.columns ++ colLines kids a (some ρ) = colLines kids a σ0 ∧
-        colPos kids a σ0 < colPos kids a (some ρ))
+        colPos kids a σ0 < colPos kids a (some ρ) ∧ a + skipIdxOf (some ρ) < kids.length)
 
 theorem realLoop_spec (env : ColEnv) (kids : List ColBox) (a : Nat)
-    (hcol : ∀ c' x y bs σ pie, ColPost kids a σ (env.layCol c' a x y bs σ pie))
+    (hcol : ∀ σ, a + skipIdxOf σ < kids.length → ∀ c' x y bs pie, ColPost kids a σ (env.layCol c' a x y bs σ pie))
     (c : CCtx) (y : Rat) (cs : ColSpec) (opie hd : Bool) (obs : Rat) (σ0 : Option Resume) (bp0 : Bool) :
     ∀ (fuel i : Nat) (s : RealOut),
-      allColumns s.columns → fragLinesList s.columns ++ colLines kids a s.skip = colLines kids a σ0 →
+      a + skipIdxOf s.skip < kids.length →
+      fragLinesList s.columns ++ colLines kids a s.skip = colLines kids a σ0 →
       colPos kids a σ0 ≤ colPos kids a s.skip → (s.columns ≠ [] → colPos kids a σ0 < colPos kids a s.skip) →
       s.breakPage = bp0 →
       RealPost kids a σ0 bp0 (realLoop env c a y cs opie hd obs fuel i s) := by
@@ -390,24 +538,25 @@ theorem realLoop_spec (env : ColEnv) (kids : List ColBox) (a : Nat)
   induction fuel with
   | zero => intro i s _ _ _ _ _; simp [realLoop, RealPost]
   | succ fuel ih =>
-    intro i s hall hlines hle hlt hbp
+    intro i s hk hlines hle hlt hbp
     unfold realLoop
     dsimp only
-    have hpost := hcol c (colX cs i) y s.bs s.skip opie
+    have hpost := hcol s.skip hk c (colX cs i) y s.bs opie
     split
     · intro h; simp at h
     · split
-      · intro _; left; exact ⟨rfl, rfl⟩
+      · rename_i hnone
+        intro _; left
+        exact ⟨rfl, rfl, hpost.1 hnone⟩
       · rename_i f hf
-        obtain ⟨hfc, hres⟩ := hpost f hf
-        have hall' : allColumns (s.columns ++ [f]) := allColumns_append _ _ hall ⟨hfc, trivial⟩
+        obtain ⟨hfc, hres⟩ := hpost.2 f hf
         have hne : s.columns ++ [f] ≠ [] := by simp
         cases hr : (env.layCol c a (colX cs i) y s.bs s.skip opie).resume with
         | none =>
           rw [hr] at hres
           simp only [Option.isNone_none, if_true]
           intro _; right
-          refine ⟨hbp, hne, hall', ?_⟩
+          refine ⟨hbp, hne, ?_⟩
           simp only [fragLinesList_append, fragLinesList, List.append_nil]
           rw [hres]; exact hlines
         | some ρ =>
@@ -417,69 +566,250 @@ theorem realLoop_spec (env : ColEnv) (kids : List ColBox) (a : Nat)
           have hl2 : fragLinesList (s.columns ++ [f]) ++ colLines kids a (some ρ) = colLines kids a σ0 := by
             simp only [fragLinesList_append, fragLinesList, List.append_nil, List.append_assoc]
             rw [hres.1]; exact hlines
-          have hp2 : colPos kids a σ0 < colPos kids a (some ρ) := by have := hres.2; omega
+          have hp2 : colPos kids a σ0 < colPos kids a (some ρ) := by have := hres.2.1; omega
           split
           · intro _; right
-            exact ⟨hbp, hne, hall', hl2, hp2⟩
+            exact ⟨hbp, hne, hl2, hp2, hres.2.2⟩
           · apply ih
-            · exact hall'
+            · exact hres.2.2
             · exact hl2
             · exact Nat.le_of_lt hp2
             · intro _; exact hp2
             · exact hbp
 
-/-- State of `columns_layout` after its only group (no spanning children). -/
-def GroupPost (kids : List ColBox) (a : Nat) (σ0 : Option Resume) (s : ColsState) : Prop :=
-  s.err = none →
-  (s.newChildren = []) ∨
-  (s.index = a ∧ s.breakPage = false ∧ s.skip = none ∧ s.newChildren ≠ [] ∧ allColumns s.newChildren ∧
-    match s.colSkip with
-    | none => fragLinesList s.newChildren = colLines kids a σ0
-    | some ρ => fragLinesList s.newChildren ++ colLines kids a (some ρ) = colLines kids a σ0 ∧
-        colPos kids a σ0 < colPos kids a (some ρ))
+/-! ### the loop over `columns_and_blocks` -/
 
-theorem colsLoop_group_spec (env : ColEnv) (kids : List ColBox) (a len : Nat)
-    (hcol : ∀ c' x y bs σ pie, ColPost kids a σ (env.layCol c' a x y bs σ pie))
-    (c : CCtx) (cs : ColSpec) (hd : Bool) (obs : Rat) (last fuel : Nat) (init : ColsState)
-    (hn : init.newChildren = []) (hb : init.breakPage = false) :
-    GroupPost kids a init.skip (colsLoop env c cs hd obs last fuel [.group a len] init) := by
-  unfold colsLoop
-  dsimp only
-  split
-  · intro h; simp at h
-  · have hreal := realLoop_spec env kids a hcol c (init.y + collapseMargin init.adj) cs init.pie hd obs init.skip false
-      fuel 0
-      { columns := [], maxColH := 0, skip := init.skip, colSkip := init.colSkip,
-        nextPage := (trialLoop env c a 0 (init.y + collapseMargin init.adj)
-          (c.pageBottom - (init.y + collapseMargin init.adj) - obs) cs.count init.skip
-          (cs.balance || decide (a < last)) init.nextPage).nextPage,
-        bs := if c.pageBottom - (init.y + collapseMargin init.adj) - (trialLoop env c a 0 (init.y + collapseMargin init.adj)
-          (c.pageBottom - (init.y + collapseMargin init.adj) - obs) cs.count init.skip
-          (cs.balance || decide (a < last)) init.nextPage).height > init.bs
-          then c.pageBottom - (init.y + collapseMargin init.adj) - (trialLoop env c a 0 (init.y + collapseMargin init.adj)
-          (c.pageBottom - (init.y + collapseMargin init.adj) - obs) cs.count init.skip
-          (cs.balance || decide (a < last)) init.nextPage).height else init.bs,
-        breakPage := init.breakPage, err := none }
-      trivial (by simp [fragLinesList]) (Nat.le_refl _) (by intro h; exact absurd rfl h) hb
-    split
-    · intro h; simp at h
-    · rename_i herr
-      have hr := hreal herr
-      have hfin : ∀ (b : Bool) (s' : ColsState), (if b = true then s'
-          else colsLoop env c cs hd obs last fuel [] s') = s' := by
-        intro b s'; split
-        · rfl
-        · simp [colsLoop]
-      rw [hfin]
-      intro _
-      rcases hr with ⟨hc, _⟩ | ⟨hbp, hne, hall, hm⟩
-      · left; simp [hn, hc]
-      · right
-        refine ⟨rfl, hbp, rfl, ?_, ?_, ?_⟩
-        · simp [hn, hne]
-        · simp only [hn, List.nil_append]; exact allColumns_map_setColHeight _ _ hall
-        · simp only [hn, List.nil_append, fragLinesList_map_setColHeight]
-          exact hm
+def GroupAt (F : List Bool) (n a e : Nat) : Prop :=
+  a < e ∧ e ≤ n ∧ (∀ t, a ≤ t → t < e → F[t]? ≠ some true) ∧ (e < n → F[e]? = some true)
+
+/-- What the layout of the spanning child at position `i` guarantees. -/
+def SpanPost (K : List ColBox) (i : Nat) (sk : Option Resume) (r : LayoutResult) : Prop :=
+  match K[i]? with
+  | none => r.err ≠ none
+  | some b => BoxPost b sk r.frag r.resume
+
+structure LoopInv (K : List ColBox) (total : List (Nat × Nat)) (P0 : Nat) (m : Nat) (s : ColsState) : Prop where
+  bp : s.breakPage = false
+  cs : s.colSkip = none
+  sk0 : skipIdxOf s.skip = 0
+  skn : s.skip = none ∨ s.newChildren = []
+  lines : fragLinesList s.newChildren ++ colLines K m s.skip = total
+  pos : P0 ≤ colPos K m s.skip
+  spos : s.newChildren ≠ [] → P0 < colPos K m s.skip
+
+/-- State of `columns_layout` after the loop: what the resume position it is going to compute designates. -/
+def LoopPost (K : List ColBox) (total : List (Nat × Nat)) (P0 : Nat) (s : ColsState) : Prop :=
+  s.err = none → s.newChildren = [] ∨
+    match colsResume s with
+    | none => fragLinesList s.newChildren = total
+    | some R => fragLinesList s.newChildren ++ linesFromKids K (skipIdxOf (some R)) (subSkipOf (some R)) = total ∧
+        P0 < posKids K (skipIdxOf (some R)) (subSkipOf (some R))
+
+theorem colsLoop_spec (env : ColEnv) (K : List ColBox) (F : List Bool)
+    (hspan : ∀ c i y bs sk pie adj, SpanPost K i sk (env.laySpan c i y bs sk pie adj))
+    (hcol : ∀ a e, GroupAt F K.length a e → ∀ σ, a + skipIdxOf σ < e → ∀ c' x y bs pie,
+      ColPost (K.take e) a σ (env.layCol c' a x y bs σ pie))
+    (c : CCtx) (cs : ColSpec) (hd : Bool) (obs : Rat) (last fuel : Nat) (total : List (Nat × Nat)) (P0 : Nat) :
+    ∀ (its : List ColItem) (m : Nat) (s : ColsState), ItemsOk F K.length m its → LoopInv K total P0 m s →
+      LoopPost K total P0 (colsLoop env c cs hd obs last fuel its s) := by
+  intro its
+  induction its with
+  | nil =>
+    intro m s hok hinv
+    simp only [ItemsOk] at hok
+    simp only [colsLoop]
+    intro _
+    rcases hinv.skn with hsk | hnil
+    · right
+      simp only [colsResume, hinv.cs, hinv.bp, hsk, Option.isSome_none, Bool.false_eq_true, if_false]
+      have hl := hinv.lines
+      rw [hsk] at hl
+      simp only [colLines, skipIdxOf, subSkipOf, Nat.add_zero] at hl
+      rw [linesFromKids_ge K m none hok] at hl
+      simpa using hl
+    · left; exact hnil
+  | cons it rest ih =>
+    intro m s hok hinv
+    cases it with
+    | span i =>
+      simp only [ItemsOk] at hok
+      obtain ⟨rfl, hFi, hrest⟩ := hok
+      unfold colsLoop
+      dsimp only
+      have hsp := hspan c i s.y obs (subSkipOf s.skip) s.pie s.adj
+      generalize env.laySpan c i s.y obs (subSkipOf s.skip) s.pie s.adj = r at hsp ⊢
+      split
+      · intro h; simp at h
+      · rename_i herr
+        unfold SpanPost at hsp
+        cases hKi : K[i]? with
+        | none => rw [hKi] at hsp; exact absurd herr hsp
+        | some b =>
+          rw [hKi] at hsp
+          simp only at hsp
+          have hcl : colLines K i s.skip = linesFrom b (subSkipOf s.skip) ++ linesFromKids K (i + 1) none := by
+            simp only [colLines, hinv.sk0, Nat.add_zero]
+            exact linesFromKids_get K i b _ hKi
+          obtain ⟨hpg1, hpg2⟩ := posKids_get K i b (subSkipOf s.skip) hKi
+          have hcp : colPos K i s.skip = sizeKids (K.take i) + pos b (subSkipOf s.skip) := by
+            simp only [colPos, hinv.sk0, Nat.add_zero]; exact hpg1
+          split
+          · -- the spanning child could not be placed
+            intro _
+            by_cases hnil : s.newChildren = []
+            · left; exact hnil
+            · right
+              have hsk : s.skip = none := by
+                rcases hinv.skn with h | h
+                · exact h
+                · exact absurd h hnil
+              simp only [colsResume, hinv.cs, Option.isSome_none, Bool.false_eq_true, if_false, if_true,
+                skipIdxOf, subSkipOf]
+              have hl := hinv.lines
+              have hp := hinv.spos hnil
+              rw [hsk] at hl hp
+              simp only [colLines, colPos, skipIdxOf, subSkipOf, Nat.add_zero] at hl hp
+              exact ⟨hl, hp⟩
+          · rename_i f hf
+            have hbp := hsp f hf
+            cases hres : r.resume with
+            | some ρ =>
+              rw [hres] at hbp
+              simp only at hbp
+              simp only [Option.isSome_some, if_true]
+              intro _
+              right
+              simp only [colsResume, Option.isSome_some, if_true, skipIdxOf, subSkipOf, Nat.add_zero]
+              constructor
+              · rw [fragLinesList_append]
+                simp only [fragLinesList, List.append_nil, List.append_assoc]
+                rw [linesFromKids_get K i b (some ρ) hKi, ← List.append_assoc (fragLines f), hbp.1, ← hcl]
+                exact hinv.lines
+              · have := (posKids_get K i b (some ρ) hKi).1
+                rw [this]
+                have := hinv.pos
+                omega
+            | none =>
+              rw [hres] at hbp
+              simp only at hbp
+              simp only [Option.isSome_none, Bool.false_eq_true, if_false]
+              apply ih (i + 1) _ hrest
+              have hfl : fragLines f = linesFrom b (subSkipOf s.skip) := full_lines _ _ _ hbp
+              have hps := pos_lt_size b (subSkipOf s.skip)
+              have hge := hpg2 none
+              have hp0 := hinv.pos
+              constructor
+              · exact hinv.bp
+              · exact hinv.cs
+              · rfl
+              · left; rfl
+              · simp only [colLines, skipIdxOf, subSkipOf, Nat.add_zero]
+                rw [fragLinesList_append]
+                simp only [fragLinesList, List.append_nil, List.append_assoc]
+                rw [hfl, ← hcl]
+                exact hinv.lines
+              · simp only [colPos, skipIdxOf, subSkipOf, Nat.add_zero]; omega
+              · intro _; simp only [colPos, skipIdxOf, subSkipOf, Nat.add_zero]; omega
+    | group a len =>
+      simp only [ItemsOk] at hok
+      obtain ⟨rfl, hlen, hle, hfree, hend, hrest⟩ := hok
+      have hgrp : GroupAt F K.length a (a + len) := ⟨by omega, hle, hfree, hend⟩
+      have hlenT : (K.take (a + len)).length = a + len := by simp; omega
+      unfold colsLoop
+      dsimp only
+      split
+      · intro h; simp at h
+      · generalize htr : trialLoop env c a 0 (s.y + collapseMargin s.adj)
+          (c.pageBottom - (s.y + collapseMargin s.adj) - obs) cs.count s.skip
+          (cs.balance || decide (a < last)) s.nextPage = t
+        have hsk0 := hinv.sk0
+        have hreal := realLoop_spec env (K.take (a + len)) a
+          (fun σ hσ => hcol a (a + len) hgrp σ (by rw [hlenT] at hσ; exact hσ))
+          c (s.y + collapseMargin s.adj) cs s.pie hd obs s.skip false fuel 0
+          { columns := [], maxColH := 0, skip := s.skip, colSkip := s.colSkip, nextPage := t.nextPage,
+            bs := if c.pageBottom - (s.y + collapseMargin s.adj) - t.height > s.bs
+              then c.pageBottom - (s.y + collapseMargin s.adj) - t.height else s.bs,
+            breakPage := s.breakPage, err := none }
+          (by rw [hlenT, hsk0]; omega) (by simp [fragLinesList]) (Nat.le_refl _)
+          (by intro h; exact absurd rfl h) hinv.bp
+        generalize realLoop env c a (s.y + collapseMargin s.adj) cs s.pie hd obs fuel 0
+          { columns := [], maxColH := 0, skip := s.skip, colSkip := s.colSkip, nextPage := t.nextPage,
+            bs := if c.pageBottom - (s.y + collapseMargin s.adj) - t.height > s.bs
+              then c.pageBottom - (s.y + collapseMargin s.adj) - t.height else s.bs,
+            breakPage := s.breakPage, err := none } = R at hreal ⊢
+        split
+        · intro h; simp at h
+        · rename_i herr
+          have hR := hreal herr
+          -- lines and positions of the group inside the whole container
+          have hclT : colLines K a s.skip = colLines (K.take (a + len)) a s.skip ++ linesFromKids K (a + len) none := by
+            simp only [colLines, hsk0, Nat.add_zero]
+            exact linesFromKids_take K (a + len) a _ (by omega) hle
+          have hcpT : colPos K a s.skip = colPos (K.take (a + len)) a s.skip := by
+            simp only [colPos, hsk0, Nat.add_zero]
+            exact posKids_take K (a + len) a _ (by omega) hle
+          rcases hR with ⟨hc, hbp, hcsk⟩ | ⟨hbp, hne, hm⟩
+          · -- no column could be rendered: the page is broken before the group
+            simp only [hbp, Bool.true_or, if_true]
+            intro _
+            simp only [hc, List.map_nil, List.append_nil]
+            by_cases hnil : s.newChildren = []
+            · left; exact hnil
+            · right
+              have hsk : s.skip = none := by
+                rcases hinv.skn with h | h
+                · exact h
+                · exact absurd h hnil
+              simp only [colsResume, hcsk, hbp, Option.isSome_none, Bool.false_eq_true, if_false, if_true,
+                skipIdxOf, subSkipOf]
+              have hl := hinv.lines
+              have hp := hinv.spos hnil
+              rw [hsk] at hl hp
+              simp only [colLines, colPos, skipIdxOf, subSkipOf, Nat.add_zero] at hl hp
+              exact ⟨hl, hp⟩
+          · cases hcs : R.colSkip with
+            | some ρ =>
+              rw [hcs] at hm
+              simp only at hm
+              obtain ⟨hl, hp, hk⟩ := hm
+              rw [hlenT] at hk
+              simp only [Option.isSome_some, Bool.or_true, if_true]
+              intro _
+              right
+              simp only [colsResume, Option.isSome_some, if_true, skipIdxOf_node, subSkipOf_node]
+              have hk' : a + skipIdxOf (some ρ) < a + len := hk
+              constructor
+              · rw [fragLinesList_append, fragLinesList_map_setColHeight, List.append_assoc,
+                  linesFromKids_take K (a + len) _ _ hk' hle, ← List.append_assoc (fragLinesList R.columns)]
+                have : fragLinesList R.columns ++ linesFromKids (K.take (a + len)) (a + skipIdxOf (some ρ))
+                    (subSkipOf (some ρ)) = colLines (K.take (a + len)) a s.skip := hl
+                rw [this, ← hclT]
+                exact hinv.lines
+              · rw [posKids_take K (a + len) _ _ hk' hle]
+                have : colPos (K.take (a + len)) a s.skip < posKids (K.take (a + len)) (a + skipIdxOf (some ρ))
+                    (subSkipOf (some ρ)) := hp
+                have := hinv.pos
+                omega
+            | none =>
+              rw [hcs] at hm
+              simp only at hm
+              simp only [hbp, hinv.bp, Option.isSome_none, Bool.or_false, Bool.false_eq_true, if_false]
+              apply ih (a + len) _ hrest
+              have hp0 := hinv.pos
+              have hlt := posKids_lt (K.take (a + len)) a (subSkipOf s.skip) (by rw [hlenT]; omega)
+              have hge := posKids_at_take K (a + len) none
+              have hcp' : colPos (K.take (a + len)) a s.skip = posKids (K.take (a + len)) a (subSkipOf s.skip) := by
+                simp only [colPos, hsk0, Nat.add_zero]
+              constructor
+              · rfl
+              · rfl
+              · rfl
+              · left; rfl
+              · simp only [colLines, skipIdxOf, subSkipOf, Nat.add_zero]
+                rw [fragLinesList_append, fragLinesList_map_setColHeight, List.append_assoc, hm, ← hclT]
+                exact hinv.lines
+              · simp only [colPos, skipIdxOf, subSkipOf, Nat.add_zero]; omega
+              · intro _; simp only [colPos, skipIdxOf, subSkipOf, Nat.add_zero]; omega
 
 theorem colLines_firstItemSkip (kids : List ColBox) (skip : Option Resume) :
     colLines kids (skipIdxOf skip) (firstItemSkip skip) = linesFromKids kids (skipIdxOf skip) (subSkipOf skip) := by
@@ -491,7 +821,8 @@ theorem colPos_firstItemSkip (kids : List ColBox) (skip : Option Resume) :
 
 theorem colsFinish_post (kids : List ColBox) (id idx : Nat) (st : PStyle) (cs : ColSpec) (flags : List Bool)
     (mt y contentY : Rat) (adjL : List Rat) (skip : Option Resume) (s : ColsState) (hnk : kids.length ≠ 0)
-    (hg : GroupPost kids (skipIdxOf skip) (firstItemSkip skip) s) :
+    (hg : LoopPost kids (linesFromKids kids (skipIdxOf skip) (subSkipOf skip))
+      (posKids kids (skipIdxOf skip) (subSkipOf skip)) s) :
     BoxPost (.columns id st cs flags kids) skip
       (colsFinish id idx st kids.length mt y contentY adjL s).frag
       (colsFinish id idx st kids.length mt y contentY adjL s).resume := by
@@ -512,36 +843,38 @@ theorem colsFinish_post (kids : List ColBox) (id idx : Nat) (st : PStyle) (cs : 
         simp only [Option.some.injEq] at hf
         subst hf
         dsimp only
-        rcases hg herr with hnil | ⟨hidx, hbp, hsk, hne', hall, hm⟩
+        rcases hg herr with hnil | hm
         · rw [hnil] at hne; simp [hnk] at hne
-        · obtain ⟨hl1, hl2, _⟩ := addTrailing_spec (colsHeight st (s.y + collapseMargin s.adj - contentY)).2
+        · obtain ⟨hl1, _⟩ := addTrailing_spec (colsHeight st (s.y + collapseMargin s.adj - contentY)).2
             s.newChildren
-          unfold colsResume
-          cases hcs : s.colSkip with
+          cases hcr : colsResume s with
           | none =>
-            rw [hcs] at hm
-            simp only [Option.isSome_none, Bool.false_eq_true, if_false, hbp, hsk]
+            rw [hcr] at hm
+            simp only at hm ⊢
             simp only [Full]
-            refine ⟨hl2 hall, ?_⟩
-            rw [hl1, hm, colLines_firstItemSkip]
-          | some ρ =>
-            rw [hcs] at hm
-            simp only [Option.isSome_some, if_true]
+            rw [hl1, hm]
+          | some R =>
+            rw [hcr] at hm
+            simp only at hm ⊢
             constructor
-            · simp only [fragLines, linesFrom, skipIdxOf_node, subSkipOf_node]
-              rw [hl1, hidx]
-              have := hm.1
-              rw [colLines_firstItemSkip] at this
-              exact this
-            · simp only [pos, skipIdxOf_node, subSkipOf_node]
-              rw [hidx]
-              have := hm.2
-              rw [colPos_firstItemSkip] at this
-              exact this
+            · simp only [fragLines, linesFrom]
+              rw [hl1]; exact hm.1
+            · simp only [pos]
+              exact hm.2
 
-theorem columnsLayout_post (env : ColEnv) (kids : List ColBox)
-    (hcol : ∀ a c' x y bs σ pie, ColPost kids a σ (env.layCol c' a x y bs σ pie))
-    (c : CCtx) (id idx : Nat) (st : PStyle) (cs : ColSpec) (flags : List Bool) (hfl : NoSpanFlags flags)
+theorem colItems_ge (flags : List Bool) (n k : Nat) (h : n ≤ k) : colItems flags n k = [] := by
+  unfold colItems
+  have : (normFlags flags n).drop k = [] := by
+    apply List.drop_eq_nil_of_le
+    rw [normFlags_length]; exact h
+  rw [this]
+  simp [colItemsGo]
+
+theorem columnsLayout_post (env : ColEnv) (kids : List ColBox) (flags : List Bool)
+    (hspan : ∀ c i y bs sk pie adj, SpanPost kids i sk (env.laySpan c i y bs sk pie adj))
+    (hcol : ∀ a e, GroupAt (normFlags flags kids.length) kids.length a e → ∀ σ, a + skipIdxOf σ < e →
+      ∀ c' x y bs pie, ColPost (kids.take e) a σ (env.layCol c' a x y bs σ pie))
+    (c : CCtx) (id idx : Nat) (st : PStyle) (cs : ColSpec)
     (fuel : Nat) (mt y0 bs0 : Rat) (skip : Option Resume) (pie : Bool) (adjL : List Rat) :
     BoxPost (.columns id st cs flags kids) skip
       (columnsLayout env c id idx st cs flags kids.length fuel mt y0 bs0 skip pie adjL).frag
@@ -550,10 +883,9 @@ theorem columnsLayout_post (env : ColEnv) (kids : List ColBox)
   split
   · intro f hf; simp [raisedResult] at hf
   · dsimp only
-    rw [colItems_noSpan flags hfl]
     by_cases hk : kids.length ≤ skipIdxOf skip
     · -- nothing left to lay out
-      rw [if_pos hk]
+      rw [colItems_ge flags _ _ hk]
       simp only [colsLoop]
       by_cases hn : kids.length = 0
       · have hkids : kids = [] := List.length_eq_zero_iff.mp hn
@@ -562,21 +894,29 @@ theorem columnsLayout_post (env : ColEnv) (kids : List ColBox)
         simp only [colsFinish, colsInit, List.length_nil, if_true, ne_eq, not_true_eq_false, Bool.false_and,
           decide_false, Bool.false_eq_true, if_false, addTrailing, Option.some.injEq] at hf ⊢
         subst hf
-        simp [colsResume, Full, allColumns, fragLinesList, linesFromKids]
+        simp [colsResume, Full, fragLinesList, linesFromKids]
       · intro f hf
         simp [colsFinish, colsInit, hn] at hf
-    · rw [if_neg hk]
-      have hnk : kids.length ≠ 0 := by omega
+    · have hnk : kids.length ≠ 0 := by omega
       apply colsFinish_post kids id idx st cs flags _ _ _ adjL skip _ hnk
-      have hinit : ∀ cy b, (colsInit kids.length cy b skip pie).skip = firstItemSkip skip := by
+      apply colsLoop_spec env kids (normFlags flags kids.length) hspan hcol _ cs _ bs0 _ fuel _ _ _
+        (skipIdxOf skip) _ (colItems_ok flags kids.length (skipIdxOf skip))
+      have hsk : ∀ cy b, (colsInit kids.length cy b skip pie).skip = firstItemSkip skip := by
         intro cy b; simp [colsInit, hnk]
-      rw [← hinit]
-      exact colsLoop_group_spec env kids (skipIdxOf skip) (kids.length - skipIdxOf skip) (hcol _) _ cs _ bs0 _ fuel _
-        rfl rfl
+      constructor
+      · simp [colsInit]
+      · simp [colsInit]
+      · rw [hsk]; cases skip <;> simp [firstItemSkip]
+      · right; simp [colsInit]
+      · rw [hsk, colLines_firstItemSkip]; simp [colsInit, fragLinesList]
+      · rw [hsk, colPos_firstItemSkip]; exact Nat.le_refl _
+      · intro h; simp [colsInit] at h
 
-theorem columnsBoxLayout_post (env : ColEnv) (kids : List ColBox)
-    (hcol : ∀ a c' x y bs σ pie, ColPost kids a σ (env.layCol c' a x y bs σ pie))
-    (c : CCtx) (id idx : Nat) (st : PStyle) (cs : ColSpec) (flags : List Bool) (hfl : NoSpanFlags flags)
+theorem columnsBoxLayout_post (env : ColEnv) (kids : List ColBox) (flags : List Bool)
+    (hspan : ∀ c i y bs sk pie adj, SpanPost kids i sk (env.laySpan c i y bs sk pie adj))
+    (hcol : ∀ a e, GroupAt (normFlags flags kids.length) kids.length a e → ∀ σ, a + skipIdxOf σ < e →
+      ∀ c' x y bs pie, ColPost (kids.take e) a σ (env.layCol c' a x y bs σ pie))
+    (c : CCtx) (id idx : Nat) (st : PStyle) (cs : ColSpec)
     (fuel : Nat) (y bs : Rat) (skip : Option Resume) (cb pie : Bool) (adjL : List Rat) :
     BoxPost (.columns id st cs flags kids) skip
       (columnsBoxLayout env c id idx st cs flags kids.length fuel y bs skip cb pie adjL).frag
@@ -585,7 +925,7 @@ theorem columnsBoxLayout_post (env : ColEnv) (kids : List ColBox)
   dsimp only
   generalize (if (decide (c.currentPage > 1) && pie && (cb || !adjL.isEmpty) && !c.forcedBreak) = true
     then (0 : Rat) else st.mt) = mt
-  have h1 := fun b => columnsLayout_post env kids hcol c id idx st cs flags hfl fuel mt y b skip pie adjL
+  have h1 := fun b => columnsLayout_post env kids flags hspan hcol c id idx st cs fuel mt y b skip pie adjL
   split
   · exact h1 bs
   · split
@@ -596,80 +936,84 @@ theorem columnsBoxLayout_post (env : ColEnv) (kids : List ColBox)
         · exact h1 bs
     · exact h1 bs
 
-theorem noSpanFlags_tail (flags : List Bool) (h : NoSpanFlags flags) : NoSpanFlags flags.tail := by
-  intro f hf; exact h f (List.mem_of_mem_tail hf)
+/-! ### the children loop stops at the next spanning child -/
 
-theorem noSpanFlags_head (flags : List Bool) (h : NoSpanFlags flags) : flags.head? ≠ some true := by
+/-- No spanning child among the children the loop is going to visit. -/
+def FlagsFree (flags : List Bool) (index skipIdx len : Nat) : Prop :=
+  ∀ t, t < len → skipIdx ≤ index + t → flags[t]? ≠ some true
+
+theorem flagsFree_tail (flags : List Bool) (index skipIdx len : Nat) (h : FlagsFree flags index skipIdx (len + 1)) :
+    FlagsFree flags.tail (index + 1) skipIdx len := by
+  intro t ht hs
+  have := h (t + 1) (by omega) (by omega)
   cases flags with
   | nil => simp
-  | cons f fs =>
-    have := h f (by simp)
-    simp [this]
+  | cons f fs => simpa using this
 
-mutual
-/-- **Segment + progress post-condition of `block_level_layout`** for the extended grammar: every box without
-fixed heights (containers excepted), with `orphans, widows ≥ 1` and without spanning children; every context,
-position, skip stack. -/
-theorem box_spec : (box : ColBox) → Good box → ∀ (c : CCtx) (idx : Nat) (y bs : Rat) (skip : Option Resume)
-    (cb pie : Bool) (adjL : List Rat),
+theorem flagsFree_head (flags : List Bool) (index skipIdx len : Nat) (h : FlagsFree flags index skipIdx (len + 1))
+    (hs : skipIdx ≤ index) : flags.head? ≠ some true := by
+  have := h 0 (by omega) (by omega)
+  cases flags with
+  | nil => simp
+  | cons f fs => simpa using this
+
+theorem flagsFree_nil (index skipIdx len : Nat) : FlagsFree [] index skipIdx len := by
+  intro t _ _; simp
+
+/-- The loop over the children of a column box ends at the first spanning child: it is the loop over the
+children before it. -/
+theorem layoutKids_take (c : CCtx) (st : PStyle) : (rest : List ColBox) → ∀ (flags : List Bool)
+    (j index skipIdx base : Nat) (bs : Rat) (pie : Bool) (s : KidsLoop),
+    skipIdx ≤ index + j → flags[j]? = some true →
+    layoutKids c st rest flags index skipIdx base bs pie s =
+      layoutKids c st (rest.take j) flags index skipIdx base bs pie s
+  | [], flags, j, index, skipIdx, base, bs, pie, s, _, _ => by simp
+  | child :: rest, flags, 0, index, skipIdx, base, bs, pie, s, h1, h2 => by
+    have hh : flags.head? = some true := by
+      cases flags with
+      | nil => simp at h2
+      | cons f fs => simpa using h2
+    simp only [List.take_zero]
+    rw [layoutKids, layoutKids]
+    rw [if_neg (by omega), if_pos hh]
+  | child :: rest, flags, j + 1, index, skipIdx, base, bs, pie, s, h1, h2 => by
+    have h2' : flags.tail[j]? = some true := by
+      cases flags with
+      | nil => simp at h2
+      | cons f fs => simpa using h2
+    have ih := fun s' => layoutKids_take c st rest flags.tail j (index + 1) skipIdx base bs pie s' (by omega) h2'
+    simp only [List.take_succ_cons]
+    rw [layoutKids, layoutKids]
+    simp only [ih]
+
+/-! ### the post-condition, for every box -/
+
+/-- Segment + progress post-condition of every `block_level_layout` call on `box`. -/
+def BoxSpec (box : ColBox) : Prop :=
+  ∀ (c : CCtx) (idx : Nat) (y bs : Rat) (skip : Option Resume) (cb pie : Bool) (adjL : List Rat),
     BoxPost box skip (layoutBox c box idx y bs skip cb pie adjL).frag
       (layoutBox c box idx y bs skip cb pie adjL).resume
-  | .para id n lineH st => by
-    intro hg c idx y bs skip cb pie adjL
-    exact para_spec id n lineH st hg c idx y bs skip cb pie adjL
-  | .block id st kids => by
-    intro hg c idx y bs skip cb pie adjL
-    simp only [Good] at hg
-    simp only [layoutBox]
-    apply finishBlock_post _ _ _ _ _ _ _ _ _ hg.1
-    have := kids_spec kids hg.2 c st [] [] (skipIdxOf skip) (subSkipOf skip) 0 (skipIdxOf skip) 0
-      (prepareC false c.base st y bs skip cb pie adjL).bs pie
-      { newChildren := [], posY := (prepareC false c.base st y bs skip cb pie adjL).posY,
-        adjL := (prepareC false c.base st y bs skip cb pie adjL).adjL,
-        cur := (prepareC false c.base st y bs skip cb pie adjL).cur,
-        curIsL := (prepareC false c.base st y bs skip cb pie adjL).curIsL,
-        nextPage := { brk := none, page := none }, skip := subSkipOf skip }
-      (by intro f hf; simp at hf) (Nat.zero_le _)
-      (by simp [GoodList]) (by simp [FullFrom]) (by intro _; exact ⟨rfl, rfl⟩) (by intro h; simp; omega)
-      (by simp)
-    simpa using this
-  | .columns id st cs flags kids => by
-    intro hg c idx y bs skip cb pie adjL
-    simp only [Good] at hg
-    simp only [layoutBox]
-    apply columnsBoxLayout_post _ kids _ c id idx st cs flags hg.1
-    intro a c' x y' bs' σ pie'
-    dsimp only
-    apply finishColumn_post _ _ _ _ _ _ _ kids a σ rfl
-    have hfl : NoSpanFlags (normFlags flags kids.length) := by
-      rw [normFlags_noSpan _ _ hg.1]; exact noSpanFlags_replicate _
-    have := kids_spec kids hg.2 c' (columnStyle st) (normFlags flags kids.length) [] (skipIdxOf σ) (subSkipOf σ) 0
-      (a + skipIdxOf σ) a
-      (prepareC true c'.base (columnStyle st) y' bs' σ false pie' []).bs pie'
-      { newChildren := [], posY := (prepareC true c'.base (columnStyle st) y' bs' σ false pie' []).posY,
-        adjL := (prepareC true c'.base (columnStyle st) y' bs' σ false pie' []).adjL,
-        cur := (prepareC true c'.base (columnStyle st) y' bs' σ false pie' []).cur,
-        curIsL := (prepareC true c'.base (columnStyle st) y' bs' σ false pie' []).curIsL,
-        nextPage := { brk := none, page := none }, skip := subSkipOf σ }
-      hfl (Nat.le_add_right _ _)
-      (by simp [GoodList]) (by simp [FullFrom]) (by intro _; exact ⟨rfl, by omega⟩) (by intro h; simp; omega)
-      (by simp)
-    simpa using this
-theorem kids_spec : (rest : List ColBox) → GoodList rest → ∀ (c : CCtx) (st : PStyle) (flags : List Bool)
-    (B : List ColBox) (i0 : Nat)
+
+/-- The children loop (of a block, or of a column box up to the next spanning child), given the post-condition
+of every child. -/
+theorem kids_spec : (rest : List ColBox) → (∀ b ∈ rest, BoxSpec b) → GoodList rest → ∀ (c : CCtx) (st : PStyle)
+    (flags : List Bool) (B : List ColBox) (i0 : Nat)
     (sub0 : Option Resume) (index skipIdx base : Nat) (bs : Rat) (pie : Bool) (s : KidsLoop),
-    NoSpanFlags flags → base ≤ skipIdx →
+    FlagsFree flags index skipIdx rest.length → base ≤ skipIdx →
     GoodList B → FullFrom s.newChildren B i0 sub0 →
     (index < skipIdx → B = [] ∧ i0 = skipIdx - base) → (skipIdx ≤ index → index - base = i0 + B.length) →
     s.skip = (if B = [] then sub0 else none) →
     KidsPost (B ++ rest.drop (skipIdx - index)) i0 sub0 (layoutKids c st rest flags index skipIdx base bs pie s)
   | [] => by
-    intro _ c st flags B i0 sub0 index skipIdx base bs pie s _ _ hgB hinv _ _ _
+    intro _ _ c st flags B i0 sub0 index skipIdx base bs pie s _ _ hgB hinv _ _ _
     simp only [layoutKids, List.drop_nil, List.append_nil, KidsPost]
     exact hinv
   | child :: rest => by
-    intro hg c st flags B i0 sub0 index skipIdx base bs pie s hfl hbase hgB hinv hlt hge hskip
+    intro hbox hg c st flags B i0 sub0 index skipIdx base bs pie s hfl hbase hgB hinv hlt hge hskip
     simp only [GoodList] at hg
+    have hbox' : ∀ b ∈ rest, BoxSpec b := fun b hb => hbox b (List.mem_cons_of_mem _ hb)
+    have hchildSpec : BoxSpec child := hbox child (by simp)
+    simp only [List.length_cons] at hfl
     unfold layoutKids
     by_cases hc : index < skipIdx
     · rw [if_pos hc]
@@ -678,11 +1022,11 @@ theorem kids_spec : (rest : List ColBox) → GoodList rest → ∀ (c : CCtx) (s
         have : skipIdx - index = (skipIdx - (index + 1)) + 1 := by omega
         rw [this, List.drop_succ_cons]
       rw [hd]
-      exact kids_spec rest hg.2 c st flags.tail B i0 sub0 (index + 1) skipIdx base bs pie s
-        (noSpanFlags_tail _ hfl) hbase hgB hinv
+      exact kids_spec rest hbox' hg.2 c st flags.tail B i0 sub0 (index + 1) skipIdx base bs pie s
+        (flagsFree_tail _ _ _ _ hfl) hbase hgB hinv
         (fun _ => ⟨hB, hi0⟩) (by intro _; subst hB; simp; omega) hskip
     · rw [if_neg hc]
-      rw [if_neg (noSpanFlags_head _ hfl)]
+      rw [if_neg (flagsFree_head _ _ _ _ hfl (by omega))]
       have hidx := hge (by omega)
       have hd : skipIdx - index = 0 := by omega
       rw [hd, List.drop_zero]
@@ -691,7 +1035,7 @@ theorem kids_spec : (rest : List ColBox) → GoodList rest → ∀ (c : CCtx) (s
       · -- forced break before `child`
         rename_i hforced
         rw [hidx]
-        apply stop_before_spec _ _ _ _ _ hinv
+        apply stop_before_spec _ _ _ _ _ hinv _ (by simp)
         intro he
         rw [meetBreak_nil c s child he] at hforced
         cases hforced
@@ -699,8 +1043,8 @@ theorem kids_spec : (rest : List ColBox) → GoodList rest → ∀ (c : CCtx) (s
             KidsPost (B ++ child :: rest) i0 sub0
               (layoutKids c st rest flags.tail (index + 1) skipIdx base bs pie s3) := by
           intro s3 h3 hs3
-          have := kids_spec rest hg.2 c st flags.tail (B ++ [child]) i0 sub0 (index + 1) skipIdx base bs pie s3
-            (noSpanFlags_tail _ hfl) hbase
+          have := kids_spec rest hbox' hg.2 c st flags.tail (B ++ [child]) i0 sub0 (index + 1) skipIdx base bs pie s3
+            (flagsFree_tail _ _ _ _ hfl) hbase
             (goodList_append _ _ hgB (by simp [GoodList, hg.1])) h3 (by intro _; omega)
             (by intro _; simp; omega) (by simp [hs3])
           have hd' : skipIdx - (index + 1) = 0 := by omega
@@ -715,7 +1059,7 @@ theorem kids_spec : (rest : List ColBox) → GoodList rest → ∀ (c : CCtx) (s
                   s.cur).resume := by
               rcases firstPass_keep _ _ _ _ _ _ _ hfp with h | h
               · rw [h]; exact boxPost_none _ _ _
-              · rw [h, ← hskip]; exact box_spec child hg.1 _ _ _ _ _ _ _ _
+              · rw [h, ← hskip]; exact hchildSpec _ _ _ _ _ _ _ _
             split
             · rename_i out s3 heq
               exact (conclude_spec _ _ _ _ _ _ _ _ B rest i0 sub0 hgB (by simpa using hinv) hidx hchild).1 out s3 heq
@@ -734,7 +1078,7 @@ theorem kids_spec : (rest : List ColBox) → GoodList rest → ∀ (c : CCtx) (s
                   (layoutBox c child (index - base) s.posY bs' s.skip st.isRoot (pie && s.newChildren.isEmpty)
                     (s.setCur (layoutBox c child (index - base) s.posY bs s.skip st.isRoot
                       (pie && s.newChildren.isEmpty) s.cur).adjL s.curIsL).cur).resume := by
-                rw [← hskip]; exact box_spec child hg.1 _ _ _ _ _ _ _ _
+                rw [← hskip]; exact hchildSpec _ _ _ _ _ _ _ _
               split
               · rename_i out s3 heq
                 exact (conclude_spec _ _ _ _ _ _ _ _ B rest i0 sub0 hgB (by simpa using hinv) hidx hchild).1 out s3
@@ -743,6 +1087,105 @@ theorem kids_spec : (rest : List ColBox) → GoodList rest → ∀ (c : CCtx) (s
                 have hcs := (conclude_spec _ _ _ _ _ _ _ _ B rest i0 sub0 hgB (by simpa using hinv) hidx hchild).2
                   s3 heq
                 exact hnext s3 hcs.1 hcs.2
+
+theorem layoutNth_spec (c : CCtx) : (K : List ColBox) → (i : Nat) → ∀ (y bs : Rat) (sk : Option Resume)
+    (cb pie : Bool) (adj : List Rat),
+    match K[i]? with
+    | none => (layoutNth c K i y bs sk cb pie adj).err ≠ none
+    | some b => layoutNth c K i y bs sk cb pie adj = layoutBox c b 0 y bs sk cb pie adj
+  | [], i, y, bs, sk, cb, pie, adj => by simp [layoutNth, raisedResult]
+  | b :: rest, 0, y, bs, sk, cb, pie, adj => by simp [layoutNth]
+  | b :: rest, i + 1, y, bs, sk, cb, pie, adj => by
+    simp only [List.getElem?_cons_succ, layoutNth]
+    exact layoutNth_spec c rest i y bs sk cb pie adj
+
+mutual
+/-- **Segment + progress post-condition of `block_level_layout`** for the extended grammar: every box without
+fixed heights (containers excepted) and with `orphans, widows ≥ 1` — spanning children included —, every context,
+position, skip stack. -/
+theorem box_spec : (box : ColBox) → Good box → BoxSpec box
+  | .para id n lineH st => by
+    intro hg c idx y bs skip cb pie adjL
+    exact para_spec id n lineH st hg c idx y bs skip cb pie adjL
+  | .block id st kids => by
+    intro hg c idx y bs skip cb pie adjL
+    simp only [Good] at hg
+    simp only [layoutBox]
+    apply finishBlock_post _ _ _ _ _ _ _ _ _ hg.1
+    have := kids_spec kids (boxes_spec kids hg.2) hg.2 c st [] [] (skipIdxOf skip) (subSkipOf skip) 0 (skipIdxOf skip) 0
+      (prepareC false c.base st y bs skip cb pie adjL).bs pie
+      { newChildren := [], posY := (prepareC false c.base st y bs skip cb pie adjL).posY,
+        adjL := (prepareC false c.base st y bs skip cb pie adjL).adjL,
+        cur := (prepareC false c.base st y bs skip cb pie adjL).cur,
+        curIsL := (prepareC false c.base st y bs skip cb pie adjL).curIsL,
+        nextPage := { brk := none, page := none }, skip := subSkipOf skip }
+      (flagsFree_nil _ _ _) (Nat.zero_le _)
+      (by simp [GoodList]) (by simp [FullFrom]) (by intro _; exact ⟨rfl, rfl⟩) (by intro h; simp; omega)
+      (by simp)
+    simpa using this
+  | .columns id st cs flags kids => by
+    intro hg c idx y bs skip cb pie adjL
+    simp only [Good] at hg
+    have hboxes := boxes_spec kids hg
+    simp only [layoutBox]
+    apply columnsBoxLayout_post _ kids flags _ _ c id idx st cs
+    · -- spanning children
+      intro c' i y' bs' sk pie' adj'
+      dsimp only
+      have hn := layoutNth_spec c' kids i y' bs' sk cb pie' adj'
+      unfold SpanPost
+      cases hKi : kids[i]? with
+      | none => rw [hKi] at hn; exact hn
+      | some b =>
+        rw [hKi] at hn
+        simp only at hn ⊢
+        rw [hn]
+        exact hboxes b (List.mem_of_getElem? hKi) c' 0 y' bs' sk cb pie' adj'
+    · -- groups of columns
+      intro a e hgrp σ hσ c' x y' bs' pie'
+      obtain ⟨hae, hen, hfree, hend⟩ := hgrp
+      dsimp only
+      have htake : layoutKids c' (columnStyle st) kids (normFlags flags kids.length) 0 (a + skipIdxOf σ) a
+            (prepareC true c'.base (columnStyle st) y' bs' σ false pie' []).bs pie'
+            { newChildren := [], posY := (prepareC true c'.base (columnStyle st) y' bs' σ false pie' []).posY,
+              adjL := (prepareC true c'.base (columnStyle st) y' bs' σ false pie' []).adjL,
+              cur := (prepareC true c'.base (columnStyle st) y' bs' σ false pie' []).cur,
+              curIsL := (prepareC true c'.base (columnStyle st) y' bs' σ false pie' []).curIsL,
+              nextPage := { brk := none, page := none }, skip := subSkipOf σ } =
+          layoutKids c' (columnStyle st) (kids.take e) (normFlags flags kids.length) 0 (a + skipIdxOf σ) a
+            (prepareC true c'.base (columnStyle st) y' bs' σ false pie' []).bs pie'
+            { newChildren := [], posY := (prepareC true c'.base (columnStyle st) y' bs' σ false pie' []).posY,
+              adjL := (prepareC true c'.base (columnStyle st) y' bs' σ false pie' []).adjL,
+              cur := (prepareC true c'.base (columnStyle st) y' bs' σ false pie' []).cur,
+              curIsL := (prepareC true c'.base (columnStyle st) y' bs' σ false pie' []).curIsL,
+              nextPage := { brk := none, page := none }, skip := subSkipOf σ } := by
+        by_cases he : e < kids.length
+        · exact layoutKids_take c' (columnStyle st) kids _ e 0 _ a _ pie' _ (by omega) (hend he)
+        · rw [List.take_of_length_le (by omega)]
+      rw [htake]
+      apply finishColumn_post _ _ _ _ _ _ _ (kids.take e) a σ rfl
+      have hlenT : (kids.take e).length = e := by simp; omega
+      have := kids_spec (kids.take e) (fun b hb => hboxes b (List.mem_of_mem_take hb)) (goodList_take kids e hg)
+        c' (columnStyle st) (normFlags flags kids.length) [] (skipIdxOf σ) (subSkipOf σ) 0
+        (a + skipIdxOf σ) a
+        (prepareC true c'.base (columnStyle st) y' bs' σ false pie' []).bs pie'
+        { newChildren := [], posY := (prepareC true c'.base (columnStyle st) y' bs' σ false pie' []).posY,
+          adjL := (prepareC true c'.base (columnStyle st) y' bs' σ false pie' []).adjL,
+          cur := (prepareC true c'.base (columnStyle st) y' bs' σ false pie' []).cur,
+          curIsL := (prepareC true c'.base (columnStyle st) y' bs' σ false pie' []).curIsL,
+          nextPage := { brk := none, page := none }, skip := subSkipOf σ }
+        (by intro t ht hs; rw [hlenT] at ht; exact hfree t (by omega) ht) (Nat.le_add_right _ _)
+        (by simp [GoodList]) (by simp [FullFrom]) (by intro _; exact ⟨rfl, by omega⟩) (by intro h; simp; omega)
+        (by simp)
+      simpa using this
+theorem boxes_spec : (kids : List ColBox) → GoodList kids → ∀ b ∈ kids, BoxSpec b
+  | [] => by intro _ b hb; simp at hb
+  | x :: xs => by
+    intro hg b hb
+    simp only [GoodList] at hg
+    rcases List.mem_cons.mp hb with h | h
+    · rw [h]; exact box_spec x hg.1
+    · exact boxes_spec xs hg.2 b h
 end
 
 end Wp.PMC
